@@ -133,6 +133,8 @@ def prefix_keys(keybits, prefix):
     all land in the same bucket of the initial 16-bucket table (a hash chain of length N)"""
     if isinstance(prefix, int):
         return [1000 + 7 * i for i in range(prefix)]
+    if prefix == 'pairs':
+        return []
     n = int(prefix[5:])
     kb = keybits // 8
     out = []
@@ -177,10 +179,34 @@ def ob_map(mod, stats, tmo, keybits, prefix, nsym, scenario):
     ex.overrides['@ferret_map_hash_i64'] = hash_contract
     st = ex.new_state()
     tyname = 'i32' if keybits == 32 else 'i64'
-    res = call(ex, [st], '@ferret_map_new_%s' % tyname, lambda s: [bv(kb, 64), bv(8, 64)])
-    states = [(s, r) for s, r in res]
-    (st, mp), = states
+    K = [z3.BitVec('k%d' % i, keybits) for i in range(nsym)]
+    V = [z3.BitVec('v%d' % i, 64) for i in range(nsym)]
+    if prefix == 'pairs':
+        # the map literal path: ferret_map_from_pairs_<ty>(key_size, value_size, keys, values, count) on nsym symbolic
+        # pairs whose keys may coincide (a repeated key keeps its last value and counts once)
+        def argp(s):
+            rk = s.mem.alloc(kb * nsym, name='keys', kind='heap')
+            rv = s.mem.alloc(8 * nsym, name='values', kind='heap')
+            for i in range(nsym):
+                s.mem.store(s, s.mem.ptr(rk, kb * i), K[i], kb)
+                s.mem.store(s, s.mem.ptr(rv, 8 * i), V[i], 8)
+            return [bv(kb, 64), bv(8, 64), s.mem.ptr(rk), s.mem.ptr(rv), bv(nsym, 64)]
+        res = call(ex, [st], '@ferret_map_from_pairs_%s' % tyname, argp)
+    else:
+        res = call(ex, [st], '@ferret_map_new_%s' % tyname, lambda s: [bv(kb, 64), bv(8, 64)])
     hist = []   # abstract history: list of (key term, value term)
+    if prefix == 'pairs':
+        # from_pairs may fork (chain walks); every resulting state holds the same abstract map
+        mp = res[0][1]
+        for s_, r_ in res:
+            rr, _ = solver.check(list(s_.pc) + [r_ != mp])
+            if rr != 'unsat' or conc_val(r_) == 0:
+                raise MemErr('ferret_map_from_pairs returns NULL / different objects on different paths', None)
+        pair_states = [s_ for s_, r_ in res]
+        hist = list(zip(K, V))
+    else:
+        (st, mp), = [(s, r) for s, r in res]
+        pair_states = None
 
     def do_set(sts, k, v):
         def argf(s):
@@ -201,11 +227,12 @@ def ob_map(mod, stats, tmo, keybits, prefix, nsym, scenario):
         k, v = bv(kc, keybits), bv(5000 + i, 64)
         sts = do_set(sts, k, v)
         hist.append((k, v))
-    K = [z3.BitVec('k%d' % i, keybits) for i in range(nsym)]
-    V = [z3.BitVec('v%d' % i, 64) for i in range(nsym)]
-    for i in range(nsym):
-        sts = do_set(sts, K[i], V[i])
-        hist.append((K[i], V[i]))
+    if pair_states is not None:
+        sts = pair_states
+    else:
+        for i in range(nsym):
+            sts = do_set(sts, K[i], V[i])
+            hist.append((K[i], V[i]))
     q = z3.BitVec('q', keybits)
     # abstract map
     present = z3.BoolVal(False)
@@ -313,18 +340,23 @@ def replay_map(keybits, prefix, d):
     kt = 'int32_t' if keybits == 32 else 'int64_t'
     hist = [(k, 5000 + i) for i, k in enumerate(prefix_keys(keybits, prefix))] + list(zip(d['keys'], d['values']))
     sets = '\n'.join('  { %s k = (%s)%dULL; int64_t v = (int64_t)%dULL; ferret_map_set(m, &k, &v); }' % (kt, kt, k, v) for k, v in hist)
+    mknew = 'ferret_map_t* m = ferret_map_new_%s(%d, 8);' % ('i32' if keybits == 32 else 'i64', keybits // 8)
+    if prefix == 'pairs':
+        mknew = '%s ks[] = {%s}; int64_t vs[] = {%s}; ferret_map_t* m = ferret_map_from_pairs_%s(%d, 8, ks, vs, %d);' % (
+            kt, ', '.join('(%s)%dULL' % (kt, k) for k, v in hist), ', '.join('(int64_t)%dULL' % v for k, v in hist), 'i32' if keybits == 32 else 'i64', keybits // 8, len(hist))
+        sets = ''
     body = '''#include <stdio.h>
 #include <stdint.h>
 #include "map.h"
 int main(void) {
-  ferret_map_t* m = ferret_map_new_%s(%d, 8);
+  %s
 %s
   { %s q = (%s)%dULL; int64_t* p = (int64_t*)ferret_map_get(m, &q); if (p) printf("get %%llu\\n", (unsigned long long)*p); else printf("get absent\\n"); }
   printf("size %%zu\\n", ferret_map_size(m));
   ferret_map_iter_t it; int n = 0; void *k, *v;
   if (ferret_map_iter_begin(m, &it)) { while (it.entry != NULL && n < 1000) { ferret_map_iter_next(m, &it, &k, &v); n++; } }
   printf("iter %%d\\n", n);
-  return 0; }''' % ('i32' if keybits == 32 else 'i64', keybits // 8, sets, kt, kt, d['query'])
+  return 0; }''' % (mknew, sets, kt, kt, d['query'])
     rc, so, se = cir.run_c_driver('map', body, ['core/map.c'])
     mask = (1 << keybits) - 1
     ref = {}
@@ -384,9 +416,12 @@ def main():
     jobs.append(('map', 32, 12, 1, 'get', tmo))       # the 13th insert crosses the resize threshold with a symbolic key in flight
     jobs.append(('map', 32, 12, 1, 'size', tmo))
     jobs.append(('map', 64, 0, 1, 'all', tmo))
+    jobs.append(('map', 32, 'pairs', 2, 'all', tmo))    # map literal: from_pairs on two symbolic pairs (keys may coincide)
     jobs.append(('map', 32, 'chain3', 1, 'all', tmo))  # one symbolic set (insert or overwrite at any chain position) on a bucket holding a chain of three
     if tier_ != 'quick':
         jobs.append(('map', 32, 'chain4', 1, 'all', tmo))
+        jobs.append(('map', 32, 'pairs', 3, 'all', tmo))
+        jobs.append(('map', 64, 'pairs', 2, 'all', tmo))
         jobs.append(('map', 64, 'chain3', 2, 'get', tmo))
         jobs.append(('map', 32, 0, 3, 'all', tmo))
         jobs.append(('map', 64, 12, 1, 'all', tmo))
